@@ -99,7 +99,7 @@ def eval_expression(expr: str, context: dict) -> Any:
                     value = str(value)
 
                     # Escape special characters
-                    value = escape_special_string_characters(value)
+                    value = escape_special_string_characters(value, is_value=True)
 
                     inner_expression_values.append(value)
                 string_expression = re.sub(
